@@ -125,8 +125,13 @@ def _run_shard_pyopt(args):
     import subprocess
     prop, tier, seed, name, kwargs, budget = args
     kw = {k: v for k, v in kwargs.items() if k != "_pyopt"}
-    code = ("import json,sys\nfrom vf import core\nargs=json.loads(sys.stdin.read())\n"
-            "r=core._run_shard(tuple(args))\nr['nontrivial']=sorted(r['nontrivial'])\nr['assertions_stripped']=not __debug__\nr['bytes_warning']=sys.flags.bytes_warning\nsys.stdout.write('\\nVFRESULT'+json.dumps(r))\n")
+    pre = ""
+    if "fakegmpy" in str(kwargs.get("_pyopt")):
+        # the library has a separate arithmetic path for the (legacy) gmpy package; it is pure Python around an integer type, so a stand-in
+        # module whose mpz is int makes that path executable here (the sandbox has neither gmpy nor gmpy2)
+        pre = "import sys,types\n_g=types.ModuleType('gmpy'); _g.mpz=int; sys.modules['gmpy']=_g\n"
+    code = (pre + "import json,sys\nfrom vf import core\nargs=json.loads(sys.stdin.read())\n"
+            "r=core._run_shard(tuple(args))\nr['nontrivial']=sorted(r['nontrivial'])\nr['assertions_stripped']=not __debug__\nr['bytes_warning']=sys.flags.bytes_warning\nr['gmpy_path']=bool(getattr(__import__('ecdsa.numbertheory').numbertheory,'GMPY',False))\nsys.stdout.write('\\nVFRESULT'+json.dumps(r))\n")
     try:
         mode = kwargs["_pyopt"]
         toks = {"opt"} if mode is True else set(str(mode).split("+"))
@@ -154,9 +159,11 @@ def _run_shard_pyopt(args):
         r["crash"] = "child did not run with -O"
     if "bb" in toks and r.get("bytes_warning") != 2:
         r["crash"] = "child did not run with -bb"
+    if "fakegmpy" in toks and not r.get("gmpy_path"):
+        r["crash"] = "child did not take the gmpy code path"
     r["classes"] = {"pyopt:" + k: v for k, v in r["classes"].items()}
     r["nontrivial"] = {"pyopt:" + k for k in r["nontrivial"]}
-    tag = "[python %s] " % " ".join(x for x in argv[1:] if x in ("-O", "-OO", "-bb", "error")).replace("error", "-W error") if (toks & {"opt", "bb", "werror"}) else "[other PYTHONHASHSEED] "
+    tag = "[python %s] " % " ".join(x for x in argv[1:] if x in ("-O", "-OO", "-bb", "error")).replace("error", "-W error") if (toks & {"opt", "bb", "werror"}) else ("[gmpy code path, mpz = int] " if "fakegmpy" in toks else "[other PYTHONHASHSEED] ")
     for v in r["violations"]:
         v["what"] = tag + v["what"]
     return r
